@@ -82,10 +82,10 @@ func checkDefs() map[string]CheckDef {
 		Obligations: []Obligation{
 			{Pkg: "internal/verifh/c01", Harness: "VerifC01Base", TV: 5},
 			{Pkg: "internal/verifh/c01", Harness: "VerifC01Step", Quick: map[string]int{"sigKinds": 5, "symPhase": 1}, Thor: map[string]int{"sigKinds": 7, "symPhase": 0}, TV: 30},
-			{Pkg: "internal/verifh/c01", Harness: "VerifC01BMC", Quick: map[string]int{"sigKinds": 3, "k": 1, "symPhase": 0}, Thor: map[string]int{"sigKinds": 3, "k": 2}, TV: 20},
+			{Pkg: "internal/verifh/c01", Harness: "VerifC01BMC", Quick: map[string]int{"sigKinds": 3, "k": 1, "symPhase": 0}, TV: 20},
 		},
 		Assumptions: machAssume,
-		BoundsText:  "as C09 for the inductive step (one arbitrary operation from an arbitrary invariant-satisfying machine: unbounded history); BMC: 9 milestone states reached through the real API (fresh, initialised, own-signed, fully signed init, funding, acting, update staged, peer-signed, fully signed update) followed by all sequences of k arbitrary operations (k=1 quick, 2 thorough), re-verifying the current transaction with channel.Verify after every step",
+		BoundsText:  "as C09 for the inductive step (one arbitrary operation from an arbitrary invariant-satisfying machine: unbounded history); BMC: 9 milestone states reached through the real API (fresh, initialised, own-signed, fully signed init, funding, acting, update staged, peer-signed, fully signed update) followed by every single arbitrary operation (k=1), re-verifying the current transaction with channel.Verify after every step",
 		Outside:     []string{"ActionMachine", "more than 2 participants (3 only in the base obligation)", "participants whose address map is empty"},
 	})
 	pbAssume := "google.golang.org/protobuf proto.Marshal/Unmarshal and the generated registration code are outside the claim: they are modelled by their contract Unmarshal(Marshal(m)) = m (opaque handles); the From*/To* conversions, the serializer's type switches and the length-prefixed framing are executed as they are"
